@@ -85,7 +85,10 @@ impl<V: Vary> Iterator for ScanlineIter<V> {
         // Similarly, if x_right.fract() < 0.5 that's the "one-past-the-end"
         // pixel, otherwise it's the last covered pixel and the next one is
         // the actual one-past-the-end pixel.
-        let (x0, x1) = (round_up_to_half(v0.0.x()), round_up_to_half(x1));
+        //
+        // Pixels left of x = 0 cannot be addressed; start from column 0.
+        let x0 = round_up_to_half(v0.0.x()).max(0.5);
+        let x1 = round_up_to_half(x1);
 
         // Adjust v0 to match the rounded x0
         let v0 = v0.lerp(&v0.step(&self.dv_dx), x0 - v0.0.x());
@@ -211,7 +214,8 @@ pub fn scan<V: Vary>(
     //   +-/---------+           +-----/-----+           +--/--------+
     //    p.x<0.5                    p.x>0.5              p.x<0.5
     //
-    let y0_rounded = round_up_to_half(y0);
+    // Rows above y = 0 cannot be addressed; start from row 0.
+    let y0_rounded = round_up_to_half(y0).max(0.5);
     let y1_rounded = round_up_to_half(y1);
 
     let y_tweak = y0_rounded - y0;
